@@ -37,6 +37,14 @@ Lemma py_for_next {A St R} (f : St -> A -> St) l : forall s,
   py_for (fun s x => @Next St R (f s x)) l s = inl (fold_left f l s).
 Proof. induction l as [|x l IH]; intros s; [reflexivity|]. rewrite py_for_cons. apply IH. Qed.
 
+(* `acc = []; for x in l: acc.append(f(x))` is a map *)
+Lemma py_for_append_map {A B R} (f : A -> B) (l : list A) : forall acc,
+  py_for (fun (acc : list B) (x : A) => @Next (list B) R (acc ++ [f x])) l acc = inl (acc ++ map f l).
+Proof.
+  induction l as [|x l IH]; intros acc; [cbn; rewrite app_nil_r; reflexivity|].
+  rewrite py_for_cons, IH, <- app_assoc. reflexivity.
+Qed.
+
 (* ... also when the generated state is another presentation [emb m] of the model's state m *)
 Lemma py_for_sim_next {A St M R} (F : St -> A -> py_flow St R) (f : M -> A -> M) (emb : M -> St) :
   (forall m x, F (emb m) x = Next (emb (f m x))) ->
@@ -443,7 +451,7 @@ Proof.
   apply (Hg xs [] sup Hl).
 Qed.
 
-Lemma py_select {A} (Rs : list A) (sup : list Q) (Pf : nat * Q -> bool) (P : Q -> bool) (sel : nat * Q -> option A) :
+Lemma py_select {A B} (Rs : list A) (sup : list B) (Pf : nat * B -> bool) (P : B -> bool) (sel : nat * B -> option A) :
   (forall i s, Pf (i, s) = P s) -> (forall i s, sel (i, s) = py_getitem Rs i) ->
   length Rs = length sup ->
   py_all_some (map sel (filter Pf (py_enumerate sup))) =
